@@ -318,3 +318,35 @@ Example c16_register_all_last_wins_ex :
   lookup 3%Z (ms_metrics (run_calls [RegAll [(3%Z, Other 1); (4%Z, Counter 2); (3%Z, Counter 9)]] empty_state))
   = Some (Counter 9).
 Proof. vm_compute. reflexivity. Qed.
+
+(* ---------- the pipeline's metrics slot ---------- *)
+(* p_set_metrics REPLACES the attached collector (it is never ignored because one is attached):
+   p_get_metrics / p_take_metrics hand out the collector of the last p_set_metrics; take empties *)
+Theorem c16_slot_last_set_wins : forall k1 k2 p,
+  p_get_metrics (p_set_metrics k2 (p_set_metrics k1 p)) = Some k2 /\
+  p_take_metrics (p_set_metrics k2 (p_set_metrics k1 p)) = (Some k2, PS None (ps_colls p)) /\
+  p_get_metrics (snd (p_take_metrics (p_set_metrics k2 p))) = None.
+Proof. exact slot_last_set_wins. Qed.
+
+(* a run (successful or not) leaves every collector that is not the attached one untouched *)
+Theorem c16_run_touches_attached_only :
+  forall (C R : Type) (plan : outcome C) (exec : C -> outcome R) clk i j p k,
+    ps_slot p <> Some k ->
+    coll k (snd (run_on plan exec clk i j p)) = coll k p.
+Proof. exact run_touches_attached_only. Qed.
+
+(* set_metrics(m1); ..; set_metrics(m2) without take; successful run: m2 has this run's stamps,
+   m1 is untouched, p_take_metrics returns m2 *)
+Theorem c16_reattach_then_run :
+  forall (C R : Type) (plan : outcome C) (exec : C -> outcome R) (clk : nat -> Z)
+         (i j : nat) (p : pstate) (k1 k2 : nat) (r : R),
+    monotone clk -> (i <= j)%nat -> k1 <> k2 -> (k2 < length (ps_colls p))%nat ->
+    ms_poisoned (coll k2 p) = false ->
+    let p2 := p_set_metrics k2 (p_set_metrics k1 p) in
+    fst (run_on plan exec clk i j p2) = Ok r ->
+    let p' := snd (run_on plan exec clk i j p2) in
+    elapsed (coll k2 p') = Some (clk j - clk i)%Z /\
+    coll k1 p' = coll k1 p /\
+    fst (p_take_metrics p') = Some k2.
+Proof. exact reattach_then_run. Qed.
+
